@@ -1591,6 +1591,9 @@ FROM (
         if target_type_str == "Boolean" and source_lower == "string":
             return f"(LOWER(TRIM(CAST({expr} AS VARCHAR))) = 'true')"
 
+        if target_type_str == "String" and source_lower == "boolean":
+            return _bool_to_str(expr)
+
         if target_type_str == "Integer":
             if source_lower == "boolean":
                 return f"CAST({expr} AS {duckdb_type})"
